@@ -65,7 +65,55 @@ def cases():
     out.append(('link', ops.mk(3, joliet=3), [['add_big', {'size': 'lim+1', 'iso_path': '/BIG.;1'}],
                                               ['add_hard_link', {'iso_old_path': '/BIG.;1', 'joliet_new_path': '/big'}]]))
     out.append(('level1-refused', ops.mk(1), [['add_big', {'size': '4g+2049', 'iso_path': '/BIG.;1'}]]))
+    # second generation (C02) and parse . write fixpoint (C05): REOPEN = write to a SparseSink, open it in a fresh object;
+    # the big file's bytes are then carried over from the first image
+    for sz in ('lim+1', '4g+2049'):
+        out.append(('gen2-iso-' + sz, ops.mk(3), [['add_big', {'size': sz, 'iso_path': '/BIG.;1'}], ['add_small', {'iso_path': '/A.;1'}], ['REOPEN', {}],
+                                                   ['rm_file', {'iso_path': '/A.;1'}], ['add_small', {'iso_path': '/B.;1'}]]))
+    out.append(('gen2-joliet-rm-big', ops.mk(3, joliet=3), [['add_big', {'size': 'lim+1', 'iso_path': '/BIG.;1', 'joliet_path': '/big'}],
+                                                            ['add_small', {'iso_path': '/A.;1', 'joliet_path': '/a'}], ['REOPEN', {}],
+                                                            ['add_small', {'iso_path': '/Z.;1', 'joliet_path': '/z'}], ['rm_file', {'iso_path': '/BIG.;1'}]]))
+    out.append(('gen2-rr-link', ops.mk(3, rr='1.09', joliet=3), [['add_big', {'size': 'lim+1', 'iso_path': '/BIG.;1', 'rr_name': 'big'}], ['REOPEN', {}],
+                                                                 ['add_hard_link', {'iso_old_path': '/BIG.;1', 'joliet_new_path': '/big'}],
+                                                                 ['add_small', {'iso_path': '/A.;1', 'rr_name': 'a', 'joliet_path': '/a'}]]))
+    out.append(('gen3-iso-2lim+5', ops.mk(3), [['add_small', {'iso_path': '/A.;1'}], ['add_big', {'size': '2lim+5', 'iso_path': '/BIG.;1'}], ['REOPEN', {}],
+                                               ['add_small', {'iso_path': '/C.;1'}], ['REOPEN', {}], ['rm_file', {'iso_path': '/A.;1'}]]))
+    out.append(('gen2-udf-lim-1', ops.mk(3, udf=True), [['add_big', {'size': 'lim-1', 'iso_path': '/BIG.;1', 'udf_path': '/big'}],
+                                                        ['add_small', {'iso_path': '/A.;1', 'udf_path': '/a'}], ['REOPEN', {}],
+                                                        ['rm_file', {'iso_path': '/A.;1'}], ['add_small', {'iso_path': '/B.;1', 'udf_path': '/b'}]]))
     return out
+
+
+def sink_diff(a, b):
+    """First difference between two SparseSinks (None when they hold the same image)."""
+    if a.size != b.size:
+        return 'length %d vs %d' % (a.size, b.size)
+
+    def merged(runs):
+        out = []
+        for d, ln, src, so in sorted(runs):
+            if out and out[-1][2] == src and out[-1][0] + out[-1][1] == d and out[-1][3] + out[-1][1] == so:
+                out[-1] = (out[-1][0], out[-1][1] + ln, src, out[-1][3])
+            else:
+                out.append((d, ln, src, so))
+        return out
+    ra, rb = merged(a.runs), merged(b.runs)
+    if ra != rb:
+        return 'pattern runs differ: %s vs %s' % (ra[:4], rb[:4])
+    pos = 0
+    for d, ln, src, so in ra + [(a.size, 0, 0, 0)]:
+        # everything between the runs is stored data (metadata, small files, file tails); runs themselves may have been
+        # partially overwritten by stored chunks, so their first and last sectors are compared as well
+        for s, e in ((pos, d), (d, min(d + SECTOR, d + ln)), (max(d, d + ln - SECTOR), d + ln)):
+            while s < e:
+                n = min(e - s, 1 << 20)
+                x, y = a._read_at(s, n), b._read_at(s, n)
+                if x != y:
+                    k = next(i for i in range(len(x)) if x[i] != y[i])
+                    return 'byte %d (sector %d + %d) differs' % (s + k, (s + k) // SECTOR, (s + k) % SECTOR)
+                s += n
+        pos = d + ln
+    return None
 
 
 def run_case(name, cfg, oplist):
@@ -73,7 +121,11 @@ def run_case(name, cfg, oplist):
     env.reset()
     viols = []
 
+    gen2 = any(op == 'REOPEN' for op, kw in oplist)
+
     def V(prop, clause, cls, msg):
+        if gen2 and prop == 'C01':
+            prop = 'C02'      # the same read-back clauses, now about an edited existing image
         viols.append({'prop': prop, 'clause': clause, 'cls': cls, 'msg': '%s (%s): %s' % (name, cfg_name(cfg), msg)})
     iso = env.PyCdlib()
     iso.new(**cfg_kwargs(cfg))
@@ -83,7 +135,15 @@ def run_case(name, cfg, oplist):
     for op, kw in oplist:
         kw = dict(kw)
         try:
-            if op == 'add_big':
+            if op == 'REOPEN':
+                gsink = vdev.SparseSink()
+                iso.write_fp(gsink, blocksize=1 << 22)
+                gsink.normalise()
+                iso.close()
+                iso = env.PyCdlib()
+                iso.open_fp(gsink)
+                keep.append(gsink)
+            elif op == 'add_big':
                 src_id += 1
                 total = SIZES[kw.pop('size')]
                 src = vdev.PatternSource(src_id, total)
@@ -93,12 +153,13 @@ def run_case(name, cfg, oplist):
                     if k in kw:
                         expect[(ns, kw[k])] = ('big', src_id, total)
             elif op == 'add_small':
-                fp = io.BytesIO(b'small')
+                data = b'small' if not gen2 else ('small:' + sorted(kw.values())[0]).encode()      # distinct contents, so that rm_file's bookkeeping below is exact
+                fp = io.BytesIO(data)
                 keep.append(fp)
-                iso.add_fp(fp, 5, **kw)
+                iso.add_fp(fp, len(data), **kw)
                 for k, ns in (('iso_path', 'iso'), ('joliet_path', 'joliet'), ('udf_path', 'udf')):
                     if k in kw:
-                        expect[(ns, kw[k])] = ('small', b'small')
+                        expect[(ns, kw[k])] = ('small', data)
             elif op == 'rm_file':
                 tgt = expect.get(('iso', kw['iso_path']))
                 iso.rm_file(**kw)
@@ -131,6 +192,21 @@ def run_case(name, cfg, oplist):
     try:
         iso2 = env.PyCdlib()
         iso2.open_fp(sink)
+        if gen2:
+            # C05 on the virtual device: open . write of the final image reproduces it (the clock is frozen, so no field is masked)
+            try:
+                iso3 = env.PyCdlib()
+                iso3.open_fp(sink)
+                sink3 = vdev.SparseSink()
+                iso3.write_fp(sink3, blocksize=1 << 22)
+                sink3.normalise()
+                iso3.close()
+                d = sink_diff(sink, sink3)
+                if d:
+                    V('C05', 'open then write reproduces the image', 'big image differs', d)
+            except Exception as e:
+                t, site = explore.exc_site(e)
+                V('C05', 'open then write reproduces the image', '%s@%s' % (t, site), 're-mastering raised %s: %s' % (t, str(e)[:200]))
         for (ns, path), exp in sorted(expect.items()):
             key = {'iso': 'iso_path', 'joliet': 'joliet_path', 'udf': 'udf_path'}[ns]
             if exp[0] == 'small':
@@ -218,7 +294,14 @@ def run_case(name, cfg, oplist):
                 bad = runs_match([((u.part_start + pos) * SECTOR, ln) for pos, ln in n.extents], exp[1], exp[2])
                 if bad:
                     V('C10', 'file bytes recovered independently equal the model', 'big file', '%s: %s (%d allocation descriptors)' % (path, bad, len(n.extents)))
-        objs += sorted(set((s, e, k) for s, e, k, l in u.layout))
+        # a UDF file of more than 0x3ffff800 bytes has several allocation descriptors: adjacent ones of one file are one object
+        ul = []
+        for s, e, k, l in sorted(u.layout, key=lambda x: (x[3] if x[2] == 'file data' else '', x[0])):
+            if k == 'file data' and ul and ul[-1][2] == k and ul[-1][3] == l and ul[-1][1] == s:
+                ul[-1] = (ul[-1][0], e, k, l)
+            else:
+                ul.append((s, e, k, l))
+        objs += sorted(set((s, e, k) for s, e, k, l in ul))
     # overlap (C04), sector granularity
     objs = sorted(set(objs))
     maxend, prev = -1, None
